@@ -20,7 +20,9 @@ FEATURES = {
     "rule": ["and", "none", "single", "nested", "or_shared"],
     "groups": ["none", "reactions", "metabolites", "genes", "mixed_kind"],
     "notes": ["none", "plain", "rxn_and_model"],
-    "annotation": ["none", "sbo", "string", "list", "gene_and_model", "list_nested_ids"],
+    "annotation": ["none", "sbo", "string", "list", "gene_and_model", "list_nested_ids",
+                   # (qualifier, identifier) pairs, as tuples and as the lists that JSON/YAML turn them into
+                   "qualified_tuple", "qualified_list"],
     "names": ["plain", "empty", "formula_charge", "compartment_names", "subsystem"],
 }
 DEFAULT = {k: v[0] for k, v in FEATURES.items()}
@@ -112,6 +114,11 @@ def build(d):
         # identifiers of one provider that contain each other, three or more identifiers, repeated provider
         A.annotation = {"chebi": ["CHEBI:17234", "CHEBI:1723", "CHEBI:172"], "kegg.compound": ["C00031", "C0003"]}
         r1.annotation = {"ec-code": ["1.1.1.100", "1.1.1.1"], "pubmed": ["1765", "21765"]}
+    elif an in ("qualified_tuple", "qualified_list"):
+        pair = tuple if an == "qualified_tuple" else list
+        A.annotation = {"chebi": [pair(("is", "CHEBI:17234")), pair(("isVersionOf", "CHEBI:4167"))],
+                        "kegg.compound": [pair(("is", "C00031"))]}
+        r1.annotation = {"rhea": [pair(("is", "15656"))], "ec-code": ["1.1.1.1", pair(("is", "1.1.1.2"))]}
     elif an == "gene_and_model":
         if m.genes:
             list(m.genes)[0].annotation = {"ncbigene": ["12345"]}
